@@ -61,6 +61,13 @@ type Action struct {
 	Twice  bool     `json:"twice,omitempty"` // the same message two times in one transaction
 	// AVS actions (kinds "avs*")
 	Avs *AvsAct `json:"avs,omitempty"`
+	// authorization probes (C10): Signer > 0 makes identity Signer-1 sign a message that names
+	// somebody else as its signer; Forge selects how (sim.ForgeMode). Ident is the identity an
+	// action is about when it is not an operator/staker index; Module names a parameter set.
+	Signer int    `json:"signer,omitempty"`
+	Forge  int    `json:"forge,omitempty"`
+	Ident  int    `json:"ident,omitempty"`
+	Module string `json:"module,omitempty"`
 }
 
 func (a Action) String() string {
@@ -172,9 +179,13 @@ func (m *Machine) StakerID(actor, asset int) string {
 
 func (m *Machine) OpAcc(i int) sdk.AccAddress { return m.W.Operators[i].Acc() }
 
+// caller: 0 = the gateway, 1 = the unrelated account, k >= 2 = identity k-2 of the pool.
 func (m *Machine) caller(i int) sim.AccountKey {
-	if i == 1 {
+	switch {
+	case i == 1:
 		return m.W.Other
+	case i >= 2:
+		return m.Ident(i - 2)
 	}
 	return m.W.Gateway
 }
@@ -447,13 +458,28 @@ func (m *Machine) Apply(a *Action) (Outcome, error) {
 		return Outcome{OK: res.Code == 0, Included: res.Code == 0, Note: res.Log}, nil
 	case "optIn":
 		msg := &operatortypes.OptIntoAVSReq{FromAddress: m.W.Operators[a.Op].Bech32(), AvsAddress: m.W.AvsAddr, PublicKeyJSON: m.Keys[a.Key].Wrapped.ToJSON()}
-		return m.cosmos(m.W.Operators[a.Op], msg)
+		return m.cosmosAs(a, m.W.Operators[a.Op], msg)
 	case "optOut":
 		msg := &operatortypes.OptOutOfAVSReq{FromAddress: m.W.Operators[a.Op].Bech32(), AvsAddress: m.W.AvsAddr}
-		return m.cosmos(m.W.Operators[a.Op], msg)
+		return m.cosmosAs(a, m.W.Operators[a.Op], msg)
 	case "setKey":
 		msg := &operatortypes.SetConsKeyReq{Address: m.W.Operators[a.Op].Bech32(), AvsAddress: m.W.AvsAddr, PublicKeyJSON: m.Keys[a.Key].Wrapped.ToJSON()}
-		return m.cosmos(m.W.Operators[a.Op], msg)
+		return m.cosmosAs(a, m.W.Operators[a.Op], msg)
+	case "regOperator":
+		who := m.Ident(a.Ident)
+		info := &operatortypes.OperatorInfo{EarningsAddr: who.Bech32(), OperatorMetaInfo: "probe", Commission: stakingtypes.NewCommission(sdk.ZeroDec(), sdk.OneDec(), sdk.OneDec())}
+		return m.cosmosAs(a, who, &operatortypes.RegisterOperatorReq{FromAddress: who.Bech32(), Info: info})
+	case "regChain":
+		return fromCall(c.Precompile(m.caller(a.Caller), sim.AssetsPrecompileAddr, c.AssetsABI(), "registerOrUpdateClientChain", uint32(a.Lz), uint8(20), fmt.Sprintf("chain-%d", a.Lz), "probe", "ECDSA"))
+	case "regToken":
+		tok := make([]byte, 32)
+		copy(tok, []byte{0xaa, byte(a.N), byte(a.N >> 8), 0x01})
+		return fromCall(c.Precompile(m.caller(a.Caller), sim.AssetsPrecompileAddr, c.AssetsABI(), "registerToken", uint32(a.Lz), tok, uint8(6), fmt.Sprintf("tok-%d", a.N), "probe", ""))
+	case "updToken":
+		as := m.W.Cfg.Assets[a.Asset]
+		return fromCall(c.Precompile(m.caller(a.Caller), sim.AssetsPrecompileAddr, c.AssetsABI(), "updateToken", uint32(as.LzID), pad32b(as.AddrBytes()), "probe-"+fmt.Sprint(a.N)))
+	case "updateParams":
+		return m.updateParams(a)
 	}
 	if strings.HasPrefix(a.Kind, "avs") {
 		return m.applyAvs(a)
@@ -488,6 +514,20 @@ func (m *Machine) nextBlock(dt int) error {
 	}
 	c.BeginBlock(time.Duration(dt)*time.Second, nil)
 	return nil
+}
+
+// cosmosAs delivers msgs (which name `rightful` as signer) signed by the rightful account, or,
+// for an authorization probe, by somebody else.
+func (m *Machine) cosmosAs(a *Action, rightful sim.AccountKey, msgs ...sdk.Msg) (Outcome, error) {
+	if a.Signer == 0 {
+		return m.cosmos(rightful, msgs...)
+	}
+	bz, err := m.C.BuildCosmosTxForged(m.Ident(a.Signer-1), rightful, sim.ForgeMode(a.Forge), 2_000_000, sdkmath.NewInt(2_000_000_000_000_000), msgs...)
+	if err != nil {
+		return Outcome{}, err
+	}
+	res := m.C.DeliverTx(bz)
+	return Outcome{OK: res.Code == 0, Included: res.Code == 0, Note: res.Log}, nil
 }
 
 func (m *Machine) cosmos(from sim.AccountKey, msgs ...sdk.Msg) (Outcome, error) {
